@@ -255,32 +255,54 @@ func c08R2(c *Ctx, p *Prog) {
 				c.Fail(rule, key+"#plus-one", st.Pos(), "Counters.Nodes is changed other than by +1: reported node counts can decrease or jump")
 				continue
 			}
-			// entry edges: (opts.Nodes == -1) or (Counters.Nodes < opts.Nodes)
-			okGuard := len(st.Block().Preds) > 0
-			var seenUnl, seenLt bool
-			for _, e := range entryEdges(st.Block()) {
-				if e.Cond == nil {
-					okGuard = false
-					continue
-				}
-				cb, ok := e.Cond.(*ssa.BinOp)
+			// the increment may execute only when `Nodes == -1` or `Counters.Nodes < Nodes` (strict):
+			// decided by simulating every path to it over these two atoms, whatever the arrangement
+			// of the conditions (De Morgan, early returns, named booleans).
+			classify := func(v ssa.Value) (string, bool, bool) {
+				cb, ok := v.(*ssa.BinOp)
 				if !ok {
-					okGuard = false
-					continue
+					return "", false, false
 				}
-				x, _ := directFieldLoadAny(stripConv(cb.X))
-				y, yIsField := directFieldLoadAny(stripConv(cb.Y))
-				k, isc := constOf(cb.Y)
+				x, xf := directFieldLoadAny(stripConv(cb.X))
+				y, yf := directFieldLoadAny(stripConv(cb.Y))
+				kx, xc := constOf(cb.X)
+				ky, yc := constOf(cb.Y)
 				switch {
-				case x == "search.Options.Nodes" && isc && k == -1 && ((cb.Op == token.EQL && e.True) || (cb.Op == token.NEQ && !e.True)):
-					seenUnl = true
-				case x == "search.Counters.Nodes" && yIsField && y == "search.Options.Nodes" && ((cb.Op == token.LSS && e.True) || (cb.Op == token.GEQ && !e.True)):
-					seenLt = true
-				default:
-					okGuard = false
+				case xf && x == "search.Options.Nodes" && yc && ky == -1 && cb.Op == token.EQL,
+					yf && y == "search.Options.Nodes" && xc && kx == -1 && cb.Op == token.EQL:
+					return "unlimited", false, true
+				case xf && x == "search.Options.Nodes" && yc && ky == -1 && cb.Op == token.NEQ,
+					yf && y == "search.Options.Nodes" && xc && kx == -1 && cb.Op == token.NEQ:
+					return "unlimited", true, true
+				case xf && yf && x == "search.Counters.Nodes" && y == "search.Options.Nodes":
+					switch cb.Op {
+					case token.LSS:
+						return "below", false, true
+					case token.GEQ:
+						return "below", true, true
+					}
+				case xf && yf && x == "search.Options.Nodes" && y == "search.Counters.Nodes":
+					switch cb.Op {
+					case token.GTR:
+						return "below", false, true
+					case token.LEQ:
+						return "below", true, true
+					}
 				}
+				return "", false, false
 			}
-			c.Check(okGuard && seenLt, rule, key+"#guard", st.Pos(), "the increment is entered only through `Nodes == -1` (unlimited: %v) or `Counters.Nodes < Nodes` (strict: %v): a budget of N is never exceeded", seenUnl, seenLt)
+			over, done := canExecuteUnder(st.Parent(), classify, nil, func(in ssa.Instruction) bool { return in == ssa.Instruction(st) }, map[string]bool{"unlimited": false, "below": false}, 1)
+			reach, _ := canExecuteUnder(st.Parent(), classify, nil, func(in ssa.Instruction) bool { return in == ssa.Instruction(st) }, map[string]bool{"unlimited": false, "below": true}, 1)
+			switch {
+			case !done:
+				c.Undec(rule, key+"#guard", st.Pos(), "too many paths to simulate")
+			case over:
+				c.Fail(rule, key+"#guard", st.Pos(), "the node counter can be incremented although the budget is limited (Nodes != -1) and Counters.Nodes < Nodes does not hold: a hard budget of N can be exceeded")
+			case !reach:
+				c.Undec(rule, key+"#guard", st.Pos(), "the increment is never reached under `Nodes != -1 && Counters.Nodes < Nodes`: the budget test is not the one the rule understands")
+			default:
+				c.Ok(rule, key+"#guard", st.Pos(), "on every path the increment executes only if `Nodes == -1` or `Counters.Nodes < Nodes` (strict): a budget of N is never exceeded")
+			}
 		}
 	}
 	c.Floor(rule, n, 1, "stores to Counters.Nodes")
